@@ -552,7 +552,8 @@ pub fn extract_to_dir<RS: Read + Seek + HasLength>(
                 &file
             };
             let target_file = target_dir.join(new_file_name);
-            if !target_file.exists() || leads_outside(Path::new(new_file_name)) {
+            // only a file counts as already extracted (not e.g. a directory of that name)
+            if !target_file.is_file() || leads_outside(Path::new(new_file_name)) {
                 files_filter.push(file); // need the unmapped name here
             } else {
                 extracted.push(new_file_name.into());
